@@ -125,6 +125,77 @@ class IQH(Harness):
         return IQExec(cfg)
 
 
+class RenewExec(Exec):
+    """EXPLORATORY, NOT PART OF THE CHECK (not in PLAN; run with --harness iq_renew): the property quantifies over rounds
+    *separated by renew*.  Here the rounds are not separated: suppliers run two rounds on their own (second put_end with wait_for_renew=True, which the class documents for exactly
+    this use); one consumer iterates, calls renew(), iterates again.  Round-2 items may be put before renew() is called."""
+
+    def __init__(self, cfg):
+        self.cfg = cfg
+
+    def body(self):
+        from mpservice.queue import IterableQueue
+        cfg = self.cfg
+        m = cfg['m']
+        iq = IterableQueue(queue.Queue(cfg['maxsize']), num_suppliers=m)
+        errs = []
+        got = [[], []]
+
+        def supply(k):
+            try:
+                for rnd in range(2):
+                    for j in range(cfg['items']):
+                        iq.put((rnd, k, j))
+                    iq.put_end(wait_for_renew=(rnd == 1))
+            except BaseException as e:
+                errs.append(('supplier', type(e).__name__, str(e)[:80]))
+
+        def consume():
+            try:
+                for rnd in range(2):
+                    for x in iq:
+                        got[rnd].append(x)
+                    if rnd == 0:
+                        iq.renew()
+            except BaseException as e:
+                errs.append(('consumer', type(e).__name__, str(e)[:80]))
+
+        ts = [threading.Thread(target=supply, args=(k,), name=f'sup{chr(97 + k)}') for k in range(m)]
+        ts.append(threading.Thread(target=consume, name='cona'))
+        for t in ts:
+            t.start()
+        for t in ts:
+            t.join()
+        return got, errs
+
+    def verdict(self, r):
+        v = default_verdict(r)
+        if v:
+            return v
+        got, errs = r.value
+        cfg = self.cfg
+        if errs:
+            return (f'party-raised:{errs[0][0]}:{errs[0][1]}', repr(errs))
+        for rnd in range(2):
+            exp = sorted((rnd, k, j) for k in range(cfg['m']) for j in range(cfg['items']))
+            if sorted(got[rnd]) != exp:
+                return ('wrong-items-in-round', f'round {rnd}: received {got[rnd]}, expected {exp}; all: {got}')
+        return None
+
+
+class RenewH(IQH):
+    name = 'iq_renew'
+
+    def configs(self, tier):
+        quick = tier == 'quick'
+        d = 1 if quick else 2
+        return [dict(m=1, items=1, maxsize=0, bound=d + 1, cap=80000), dict(m=2, items=1, maxsize=0, bound=d, cap=80000),
+                dict(m=1, items=2, maxsize=2, bound=d, cap=80000)]
+
+    def new(self, cfg):
+        return RenewExec(cfg)
+
+
 class IQMPH(IQH):
     """the same with the token queues in (simulated) multiprocessing queues, as the class chooses when `to_stop` is given"""
     name = 'iq_mp'
@@ -305,5 +376,5 @@ class RQ2H(Harness):
         return RQ2Exec(cfg)
 
 
-HARNESSES = {'iq': IQH, 'iq_mp': IQMPH, 'responsive': RQH, 'responsive2': RQ2H}
+HARNESSES = {'iq': IQH, 'iq_renew': RenewH, 'iq_mp': IQMPH, 'responsive': RQH, 'responsive2': RQ2H}
 PLAN = {'quick': ['iq', 'iq_mp', 'responsive', 'responsive2'], 'thorough': ['iq', 'iq_mp', 'responsive', 'responsive2']}
